@@ -231,7 +231,8 @@ fn writer_participant_removed(removed: u8) {
     core::mem::forget(p);
 }
 
-// @check props=C16 tier=thorough known=KF-C16-1
+// PARKED (not run, not claimed): measured: CBMC out of memory at 10 GB (exit 6) after 100-245 s; the defect it encodes is listed in the family report as a reading finding
+// @parked props=C16 tier=thorough known=KF-C16-1
 // @desc KNOWN FINDING: remove_discovered_participant (lease expiry, SPDP disposal, ignore_participant) removes the departed participant's readers from matched_subscription_list and deletes their RTPS proxies but does NOT update publication_matched_status: current_count keeps the old value (!= number of matched readers) and current_count_change does not record the drop (the status condition / listener are not notified either)
 // @bounds one writer, 1 matched reader of remote participant 1; participant 1 departs
 // @assume trigger: at least one matched reader belongs to the departed participant
@@ -245,7 +246,8 @@ fn c16_writer_participant_removed__known() {
     writer_participant_removed(1);
 }
 
-// @check props=C16 tier=thorough
+// PARKED (not run, not claimed): measured: CBMC out of memory at 10 GB (exit 6) after 100-245 s; the defect it encodes is listed in the family report as a reading finding
+// @parked props=C16 tier=thorough
 // @desc sibling of KF-C16-1 with the trigger negated: a participant none of whose readers is matched with the writer departs (remove_discovered_participant): matched set, counters and RTPS proxies are unchanged
 // @bounds one writer, 1 matched reader of remote participant 1; participant 3 departs
 // @assume negated trigger: no matched reader belongs to the departed participant
@@ -290,7 +292,8 @@ fn reader_participant_removed(removed: u8) {
     core::mem::forget(p);
 }
 
-// @check props=C16 tier=thorough known=KF-C16-2
+// PARKED (not run, not claimed): measured: CBMC out of memory at 10 GB (exit 6) after 100-245 s; the defect it encodes is listed in the family report as a reading finding
+// @parked props=C16 tier=thorough known=KF-C16-2
 // @desc KNOWN FINDING: remove_discovered_participant deletes the RTPS writer proxies and the samples of the departed participant's writers on a local reader but leaves them in matched_publication_list and leaves subscription_matched_status untouched: get_matched_publications still lists the departed writers, current_count does not drop, no change is recorded
 // @bounds one reader, 1 matched writer of remote participant 1; participant 1 departs
 // @assume trigger: at least one matched writer belongs to the departed participant
@@ -304,7 +307,8 @@ fn c16_reader_participant_removed__known() {
     reader_participant_removed(1);
 }
 
-// @check props=C16 tier=thorough
+// PARKED (not run, not claimed): measured: CBMC out of memory at 10 GB (exit 6) after 100-245 s; the defect it encodes is listed in the family report as a reading finding
+// @parked props=C16 tier=thorough
 // @desc sibling of KF-C16-2 with the trigger negated: a participant none of whose writers is matched with the reader departs: matched set, counters and RTPS writer proxies unchanged
 // @bounds one reader, 1 matched writer of remote participant 1; participant 3 departs
 // @assume negated trigger: no matched writer belongs to the departed participant
